@@ -79,6 +79,14 @@ CHECKS = {
          "Rasters of many widths/heights/offsets/scales incl. every header variant are written per case; histories of up to 60 operations (CacheArea incl. date-line wraps, CacheAll, CacheClear, height queries, ConvertHeight) check every query against the reference and against three differently cached objects, plus the cache inspectors after every step.",
          "The cubic stencil weights are re-derived per query from the normal equations (no library table copied). Real geoid data sets are not available offline; synthetic rasters in the documented format exercise the same reader.",
          "DESIGN.md section 3/C20"),
+ "C09": ("rapidcheck", "property-based testing against an independent 50-digit rhumb reference (defining expressions: meridian-arc difference, isometric-latitude difference, parallel-circle length, area integral by quadrature); round trips Direct(Inverse) / Inverse(Direct); shortest-course and tie rules; pole crossings; differential series vs exact for |f| <= 0.01; RhumbLine == Direct; LONG_UNROLL",
+         "Inverse, Direct and RhumbLine::Position of both variants over b/a in [0.01, 100], nearly east-west and nearly meridional courses, nearby points (divided-difference regime, down to 1-ulp latitude differences), distances beyond the poles, with every quantity conditioned by its sensitivity to the rounding of the inputs.",
+         "Known finding C09-pole-endpoint-nonfinite (pole end points documented as finite) excluded in C09.e only. Two defects found by this check were repaired (DParametric 0/0, DE near the equator for f < 0).",
+         "DESIGN.md section 3/C09"),
+ "C15": ("rapidcheck + enumeration", "property-based testing against 50-digit references: closed forms and defining integrals of the six auxiliary latitudes (all 36 pairs x series/exact), ellipsoid measures by quadrature, elliptic integrals vs Boost.Math and vs the defining integrals, Jacobi functions vs the inverse of the quadrature F; round trips, oddness (bit exact), monotonicity, fixed points; series vs exact for |f| <= 1/150; Carlson symmetry/homogeneity; reference self-validation enumerated on a grid in every run",
+         "Tangents from denormal to overflow, +-90, all b/a in [0.01, 100]; k2 in (-1e6, 1] incl. the complementary-parameter constructor, alpha2 in (-1e4, 1], arguments over many periods, (sn,cn,dn) triples incl. cardinal ones; all non-negative Carlson arguments incl. equal/zero ones.",
+         "Five open known findings (C15-isometric-pole-inf, C15-RJ-cancellation, C15-carlson-range, C15-am-near-k1, C15-G-alpha2-k2-rounded) are excluded by parameter region; six defects found by this check were repaired. n^6 series coefficients changed by < ~10 % of the top-order term are below 1 ulp on the admitted ellipsoids and cannot be seen.",
+         "DESIGN.md section 3/C15"),
 }
 NOT_YET = {}
 props = [json.loads(l) for l in open(os.path.join(HERE, "properties.jsonl"))]
